@@ -91,6 +91,23 @@ CHECKS = {
          "with the model state by TLC."),
    note="Trusted: the harness's abstraction of snapshot entries (name{tags}, bucket upper bounds as strings, value tokens), TLC. The concurrent-snapshot clause is not covered yet.",
    design_ref="DESIGN.md section 6 C11"),
+ "C18": dict(
+   technique="TLA+ spec StatsdReporter.tla (one client call per report; bucket stat name over C03's bucket pairs) checked by TLC; call logs of the real reporter over a recording statsd client validated by TLC against StatsdTrace.tla",
+   text=("TLC checks, for all bucket specifications of the small ordered-token domain, that every report is one client call, that open ends are rendered as -infinity / infinity "
+         "and that two buckets of one histogram never share a stat name, and shows the weakening the property names (lower open end rendered as infinity) is caught. The real "
+         "reporter is driven over a recording statsd.Statter for precisions 1..12 and default, sample rates unset / 1 / 0.5 / 1e-6, int64 extremes, fractional and negative gauges, "
+         "every bucket pair of every specification under value and duration concretisation tables; TLC compares every logged client call with the model's."),
+   note=("Trusted: the harness's tokenisation of stat names against strconv / Duration.String renderings of the bounds (the model treats the renderer as an injective "
+         "uninterpreted function on bounds that differ at the precision), the recording Statter, TLC."),
+   design_ref="DESIGN.md section 6 C18"),
+ "C19": dict(
+   technique="TLA+ spec MultiReporter.tla (fan-out to children in order, capability conjunction) checked by TLC; per-child call logs of real multi reporters validated by TLC against MultiReporterTrace.tla",
+   text=("TLC checks for 0..3 (4) children x all capability combinations x all short call histories that every child's log equals the parent's log, children are called in index "
+         "order and capabilities are the conjunction, and shows four weakenings (skip last child, first child twice, capabilities OR-ed, stop at first incapable child) are caught. "
+         "Random call histories over both flavours (Report*, Allocate*, handle reports incl. histogram bucket handles, Flush) with 0..5 recording children are executed on the real "
+         "multi reporters and TLC compares, per parent call, what each child received and the global order in which children were called."),
+   note="Trusted: the recording children (global sequence number, exact argument rendering, float64 by bit pattern), TLC.",
+   design_ref="DESIGN.md section 6 C19"),
  "C20": dict(
    technique="TLA+ spec Buckets.tla (constructor recurrences; bucket cache with order/kind-blind identity, two threads) checked by TLC; real constructor results and histogram bounds validated by TLC; concurrent creations under the controlled scheduler judged against TallyObs.tla",
    text=("TLC checks that every histogram uses its own bounds for colliding request sequences of two threads on the cache model and that dropping the equality re-check (or "
